@@ -9,6 +9,7 @@ import (
 	"go/token"
 	"os"
 	"path/filepath"
+	"sort"
 	"strconv"
 	"strings"
 )
@@ -978,7 +979,17 @@ func (d *decExtractor) readerLoop(f *ast.File, run, initialize *ast.FuncDecl, fa
 				words = append(words, name+" -> "+strings.Join(acts, ","))
 			}
 		}
-		facts.loopBranches = strings.Join(words, " | ")
+		// the clauses name pairwise different errors (and `== nil`): their order is immaterial, `default` stays last
+		var named, deflt []string
+		for _, w := range words {
+			if strings.HasPrefix(w, "default ->") {
+				deflt = append(deflt, w)
+			} else {
+				named = append(named, w)
+			}
+		}
+		sort.Strings(named)
+		facts.loopBranches = strings.Join(append(named, deflt...), " | ")
 	}
 }
 
